@@ -65,6 +65,8 @@ def run_shard(shard, ctx):
         if shard["slice"][0] == 0:
             for pad, ai in ((0, 0), (4095, 1)):
                 run_case({"kind": "positive", "len": (4 << 20) + 1, "pad": pad, "order": [3, 2, 1, 0], "aad": ai}, ctx)
+            for ln, pad, magic in ((9616, 3, 512), (4524, 0, 4000), (20000, 4011, 1), (4096 * 3, 0, 4096 * 2 - 20)):
+                run_case({"kind": "positive", "len": ln, "pad": pad, "order": [0, 1, 2, 3], "aad": 0, "magic": magic}, ctx)
             # paddings of a whole block and more (the footer's padding field is 32 bits wide)
             for ln, pad in ((0, 4096), (1, 4096), (4096, 4096), (100, 8192), (5, 7892), (4097, 12288), (33, 70000)):
                 for ai in (0, 1):
@@ -115,6 +117,9 @@ def run_shard(shard, ctx):
         # the ConfigEncData fields are named: their order carries no meaning
         for order in ([0, 2, 1, 3], [3, 0, 1, 2], [2, 1, 0, 3], [1, 3, 2, 0]):
             run_case({"kind": "keystore", "l1": 16, "l2": 16, "style": 0, "order": order}, ctx)
+        for esc in ("raw", "lower", "upper"):
+            for l1, l2 in ((16, 16), (17, 19), (18, 32)):
+                run_case({"kind": "keystore", "l1": l1, "l2": l2, "style": 0, "esc": esc}, ctx)
     elif kind == "key-bits":
         run_case({"kind": "key-bits"}, ctx)
     elif kind == "many-attrs":
@@ -172,6 +177,15 @@ def run_case(case, ctx):
         if kind in ("positive", "extras"):
             if kind == "positive":
                 payload = B.det("payload", case["len"])
+                if case.get("magic"):
+                    # the payload itself holds the words that mark the envelope's own structures (an archive of decrypted bodies)
+                    words = [b"DataTransformCryptoFooter", b"DataTransformAeadFooter", b"DataTransformEnvelope"]
+                    pl = bytearray(payload)
+                    for j, w in enumerate(words):
+                        at = (case["magic"] + j * 1500) % max(1, len(pl) - 600)
+                        blob = w + b"\x00" * 8 + (1234).to_bytes(4, "little") * 120
+                        pl[at:at + len(blob)] = blob[:max(0, len(pl) - at)]
+                    payload = bytes(pl)
                 iv = B.det("iv", case["ivlen"]) if case.get("ivlen") else IV
                 attrs = _attrs(case["order"], iv=iv)
                 aad = AADS[case["aad"]]
@@ -525,8 +539,21 @@ def _case_keystore(case, ctx):
 
     kid = B.det("kid%d" % case["style"], 16)
     d1, d2 = B.det("d1", case["l1"]), B.det("d2", case["l2"])
+    if case.get("esc"):
+        # values whose base64 text holds '+' and '/' (and '=' padding), written raw or percent-encoded in either letter case
+        d1 = (b"\xfb\xef\xbe\xff\xff\xfe" * 4)[:case["l1"]]
+        d2 = (b"\xff\xef\xfe\xfb\xfb\xff" * 4)[:case["l2"]]
     text = B.keystore_text(kid, d1, d2, style=case["style"], extra=[("other.nested.key", "v"), (".dot", "x")],
                            order=tuple(case.get("order", (0, 1, 2, 3))))
+    if case.get("esc"):
+        ced0 = [ln for ln in text.split("\n") if "ConfigEncData" in ln][0]
+        ced = ced0
+        if case["esc"] in ("lower", "upper"):
+            ced = ced.replace("+", "%2b").replace("/", "%2f")
+        if case["esc"] == "upper":
+            ced = ced.replace("%2b", "%2B").replace("%2f", "%2F").replace("%3d", "%3D")
+        assert case["esc"] == "raw" or ced != ced0
+        text = text.replace(ced0, ced)
     ctx.nontrivial += 1
     exp = B.derive_key(d1, d2)
     import uuid
